@@ -21,7 +21,7 @@ PROPERTY = {
     'outside': ['an explicit child priority below a differently prioritised container (statement open)',
                 'type changes other than mapping<->scalar at the written path'],
     'per_split_timeout': {'quick': 300, 'thorough': 900},
-    'wall_budget': {'quick': 900, 'thorough': 3000},
+    'wall_budget': {'quick': 1500, 'thorough': 7000},
 }
 
 KEYS = ['a', 'b', 'c']
